@@ -145,7 +145,7 @@ func runStress(t []string) string {
 	close(stop)
 	wg.Wait()
 	if v := violation.Load(); v != nil {
-		return "violated " + strings.ReplaceAll(v.(string), " ", "_")
+		return "violated " + v.(string)
 	}
 	// quiescent end state
 	calls := s.ca.calls()
